@@ -927,6 +927,15 @@ impl MachineState {
                     }
                 }
                 (HeapCellValueTag::Str, s) => {
+                    let (name, arity) = cell_as_atom_cell!(self.heap[s])
+                        .get_name_and_arity();
+
+                    // NOTE: only '.'/2 structures denote list cells.
+                    if name != atom!(".") || arity != 2 {
+                        self.fail = true;
+                        break;
+                    }
+
                     let cell = self.store(self.deref(self.heap[s+1]));
 
                     if let Some(d) = cell.as_char() {
